@@ -63,7 +63,7 @@ var C14 = &sqrun.Check{ID: "C14", QuickBudget: 60, ThoroughBudget: 600,
 		k := &collector{c: c}
 		L, WL := 4, 5
 		if c.Thorough {
-			L, WL = 5, 6
+			L, WL = 6, 7
 		}
 		inputs := Strings(c14Tokens, L)
 		judge := func(route, in string, v fieldVal, err error, hasErr bool, asID bool) {
